@@ -497,6 +497,14 @@ pub fn run(report: &mut Report, replay: Option<&str>) {
                     }
                 }
             }
+            // how much of the generated population lies inside the hypotheses of the WHOLE-RULE theorems
+            if let Ok(block) = exec::parse(&code) {
+                let sexp = crate::astsexp::block_to_sexp(&block);
+                for rule in ["convert_local_function_to_assign", "convert_function_to_assignment"] {
+                    let a = model.ask(&format!("c16.good {} {}", hex(rule.as_bytes()), sexp));
+                    r.hist(&format!("whole_rule_hypothesis:{}", rule), &a);
+                }
+            }
             check_mentions(&mut model, r, &mut rng, &code);
             // ---- end to end: one rule alone, the same rule with the default rules, all five together
             let idx = rng.below(RULES.len());
